@@ -9,6 +9,19 @@ PY = '/venv/bin/python harness/vcheck.py'
 
 # property id -> (technique, level text, level note, design ref)
 CHECKS = {
+    'C04': ('Lean 4 theorems over a line-by-line model of check_strings + model/implementation correspondence',
+            'Kernel-checked theorem check_pass_iff: for every pair of line lists, every option record and every match '
+            'relation for the ignore-patterns, the model of FilesComparison.check_strings passes exactly when the '
+            'independently stated rule Agree holds (same number of kept lines; every pair equal after stripping, or '
+            'reference line contains an ignore-substring, or pattern-equivalent; or the unexcused pairs are a '
+            'permutation within max_permutation_cases); corollaries: identical content always passes, different '
+            'lengths always fail, an unexcused difference fails. The model is tied to the code by running both on '
+            'generated near-miss inputs through all three entry points and diffing failures, first-error, '
+            'reconstruction and files written; the property itself (with a documentation-level reading of '
+            'ignore_patterns) is evaluated on the public assertions.',
+            'Trusted: Lean kernel; CPython re enters as the table of re.match results; file decoding. Two known '
+            'findings (trailing empty line normalisation).',
+            'DESIGN.md 4 C04'),
     'C16': ('Lean 4 theorems over the regenerated replacement chain + model/implementation correspondence',
             'Kernel-checked theorems: for every pattern of documented CSVW date/time fields joined by documented separators '
             '(any length) the replacement chain extracted from the source yields the field-by-field strptime format; ISO '
